@@ -427,6 +427,8 @@ class Facts:
         par = self.T.parents_of(self.fi).get(id(n))
         if fn is not None and getattr(fn, "name", "") == "__hash__" and isinstance(par, ast.Return):
             return f".hashDunder {_lstr(ast.unparse(n.args[0]))}"
+        if isinstance(par, ast.Expr):
+            return ".valueDiscarded"   # `hash(x)` as a statement: only whether it raises (hashability of the TYPE) can matter
         return ".none"
 
     def escape(self, n: ast.AST, p: Optional[ast.AST], parents) -> str:
@@ -1034,6 +1036,8 @@ def emit() -> str:
          "  | neverWritten\n"
          "  /-- `return hash(<arg>)` as the body of a `__hash__` method -/\n"
          "  | hashDunder (arg : String)\n"
+         "  /-- the call is an expression STATEMENT: its value is discarded -/\n"
+         "  | valueDiscarded\n"
          "  deriving DecidableEq, Repr",
          f"/-- {len(rows)} sites, sorted by (file, scope, kind, detail, occurrence) -/",
          "def sites : List Site := [\n  " + ",\n  ".join(lean_site(r[:5]) for r in rows) + "]",
